@@ -88,6 +88,14 @@ CHECKS = {
               'under both parsers and compared with the reference evaluator on the flattened program; rule sets of the two parsers are compared; '
               'cycles, undefined / unused imports and redefinitions must be rejected with ParsingException.'),
         note='trusted: reference evaluator; flattening = the generator\'s own single-file program'),
+    'C13': dict(
+        category='exploration', design_ref='DESIGN.md 4/C13',
+        technique='runtime monitor: the same manifest compiled in fresh worker processes under different PYTHONHASHSEED values, different compilation orders (histories), repeated LogicaProgram construction from one rules object and the C++ parser; byte comparison of SQL, deep comparison of the caller-owned rules object',
+        text=('Every entry of a manifest (generated programs with combines / functors / all recursion modes / imports, other-dialect variants, the '
+              'integration test corpus, programs sensitive to the experimental-syntax switch) is compiled in separate interpreter processes under '
+              '4 (quick) / 21 (thorough) hash seeds, in 3 different orders, 3 times from one parsed rules object and through the C++ parser; '
+              'FormattedPredicateSql and table_to_export_map must be byte-identical (stop-file timestamp masked) and the rules object unchanged.'),
+        note='trusted: worker processes are fresh interpreters; only the stop-file timestamp may vary'),
     'C14': dict(
         category='exploration', design_ref='DESIGN.md 4/C14',
         technique='runtime trace monitor: start events recorded at the sql_runner boundary checked offline against a trace specification; icontract post-conditions on the scheduler state; stop-signal fault injection',
